@@ -298,7 +298,15 @@ func checkC06(r *Run) []Violation {
 		if att.Hang || att.ErrorBlocked || att.StreamPanic != "" || len(att.Causes) == 0 {
 			continue
 		}
-		if len(att.Causes) != 1 {
+		if len(att.Causes) > 1 {
+			// a parse-side failure that came first must have ended the stream with an
+			// error; a later idle-cancel only happens when it did not
+			switch att.Causes[0] {
+			case "handler-error", "mapper-error", "mapper-miscount", "invalid-event", "unsupported-event":
+				if att.StreamErr == nil && att.Causes[1] == "cancel" {
+					vs = append(vs, Violation{"C06", "stream-nil-on-failure", fmt.Sprintf("attempt hit %s first, the stream went on until it was cancelled, and Stream returned nil", att.Causes[0]), i})
+				}
+			}
 			continue // overlapping causes: either report is accepted
 		}
 		cause := att.Causes[0]
@@ -494,7 +502,15 @@ func checkC17(r *Run) []Violation {
 			vs = append(vs, Violation{"C17", "panic", firstLine(att.StreamPanic), i})
 			return vs
 		}
-		if att.Plan.Stop == stopInvalidEvent && hasCause(att, "invalid-event") && len(att.Causes) == 1 && !att.Hang {
+		// the malformed packet was the first thing that happened to the attempt; if the
+		// stream is only ended later by the idle-cancel fallback it survived the packet
+		if att.Plan.Stop == stopInvalidEvent && len(att.Causes) >= 1 && att.Causes[0] == "invalid-event" && att.Hang {
+			// every byte was delivered, the environment was fair, and the stream is
+			// still waiting for more events: the malformed packet did not end it
+			vs = append(vs, Violation{"C17", "accepted-malformed", fmt.Sprintf("a malformed packet (%d bytes: %x) was injected at packet %d and the stream went on as if nothing had happened", len(att.Plan.Stream.Invalid), clip(att.Plan.Stream.Invalid, 40), att.Plan.Stream.AtPacket), i})
+			return vs
+		}
+		if att.Plan.Stop == stopInvalidEvent && len(att.Causes) >= 1 && att.Causes[0] == "invalid-event" && !att.Hang && !att.StepCapped {
 			if att.StreamErr == nil {
 				vs = append(vs, Violation{"C17", "accepted-malformed", fmt.Sprintf("a malformed packet (%d bytes: %x) was injected at packet %d and Stream returned nil", len(att.Plan.Stream.Invalid), clip(att.Plan.Stream.Invalid, 40), att.Plan.Stream.AtPacket), i})
 			}
